@@ -129,6 +129,31 @@ def index_update(u: U):
     o = u.call(g, d, r1)
     u.check("C14.index.unindex", o.ok and idx[("KEY", "/old")] == [other], "removed from the list of its current key")
 
+    # registration order among the resources of ONE bucket holds whatever their kinds (plain, dynamic, prefixed sub-app):
+    # "first registered, first tried" is the documented rule among resources that can match the same path
+    import importlib
+
+    M = importlib.import_module(MOD)
+
+    def mk(kind, canonical):
+        cls = {"plain": M.PlainResource, "dynamic": M.DynamicResource, "subapp": M.PrefixedSubAppResource}[kind]
+        sub = type("_K_" + kind, (cls,), {"__init__": lambda self, c: setattr(self, "canonical_", c),
+                                         "canonical": property(lambda self: self.canonical_),
+                                         "__repr__": lambda self: f"<{kind} resource {self.canonical_}>"})
+        return sub(canonical)
+
+    kinds = ("plain", "dynamic", "subapp")
+    existing = [mk(kinds[u.choose(3, f"bucket[{i}].kind")], "/same") for i in range(u.choose(3, "bucket_size"))]
+    new = mk(kinds[u.choose(3, "new.kind")], "/same")
+    idx2 = {("KEY", "/same"): list(existing)} if existing else {}
+    d2 = u.obj("UrlDispatcher", {"_resource_index": idx2}, {"_get_resource_index_key": keyfn}, shared=False)
+    o2 = u.call(f, d2, new)
+    got = idx2.get(("KEY", "/same"))
+    u.check("C14.index.registration_order_whatever_the_kind",
+            o2.ok and got is not None and len(got) == len(existing) + 1 and all(a is b for a, b in zip(got, existing + [new])),
+            "a newly registered resource is filed behind everything already in its bucket, whatever the kinds involved: "
+            f"bucket {[type(x).__name__ for x in existing]} + {type(new).__name__}")
+
     # prefix change
     class _R(_Res):
         def add_prefix(self, p):
